@@ -446,6 +446,8 @@ def resumed_at_own_dimension(ctx, base_tq, rule='factorization-resumed-at-its-ow
             for c in calls:
                 n += 1
                 a = sym(fn, fn.call_args(c)[0], inline=False)
+                if a[0] == 'L':
+                    a = sym(fn, fn.call_args(c)[0])     # a local naming the start index: its (single) initialiser
                 inst = '%s::%s' % (base_tq.replace('Spectra::', ''), fname)
                 if paths.dominated_by(fn, fn.pos_of(c), lambda m: m['k'] == 'CXXMemberCallExpr' and m.get('callee') == 'compress_V'):
                     ctx.ok(rule, inst, fn.qname, 'factorize_from(%s, ..) follows compress_V in the same member' % show(a))
